@@ -838,6 +838,21 @@ class _AdaptiveStepRK(_RungeKuttaBase):
             self._err_exp = 1.0 / (self._p)
 
 
+    def _require_ascending_grid(self, t_vals: np.ndarray) -> None:
+        """Reject strictly decreasing grids, which the adaptive drivers cannot integrate.
+
+        Raises
+        ------
+        ValueError
+            If the time grid is decreasing. Backward propagation is obtained by
+            wrapping the system in a directed system (``forward=-1``).
+        """
+        if t_vals[-1] < t_vals[0]:
+            raise ValueError(
+                "Adaptive integrators require an increasing time grid; "
+                "use forward=-1 (a directed system) for backward propagation"
+            )
+
 @numba.njit(cache=False, fastmath=FASTMATH)
 def rk45_step_jit_kernel(f, t, y, h, A, B_HIGH, C, E):
     """Perform a single step of the RK45 method.
@@ -1164,6 +1179,7 @@ class _RK45(_AdaptiveStepRK):
             available. Units follow the provided ``system``.
         """
         self.validate_inputs(system, y0, t_vals)
+        self._require_ascending_grid(t_vals)
         is_hamiltonian = isinstance(system, _HamiltonianSystemProtocol)
         if not is_hamiltonian:
             f = self._build_rhs_wrapper(system)
@@ -2247,6 +2263,7 @@ class _DOP853(_AdaptiveStepRK):
             available. Units follow the provided ``system``.
         """
         self.validate_inputs(system, y0, t_vals)
+        self._require_ascending_grid(t_vals)
         # Common zero-span short-circuit
         constant_sol = self._maybe_constant_solution(system, y0, t_vals)
         if constant_sol is not None:
